@@ -5,7 +5,10 @@ the query's cell is kmeans.predict(q); reference = fresh learning-policy bandit 
 exactly the recorded rows of that cell.  TreeBandit: per arm, the query's leaf is arm_to_tree[arm].apply(q),
 the reference statistic is computed from the recorded rewards of that arm whose contexts fall into the same
 leaf: mean (EpsilonGreedy 0), mean + alpha sqrt(2 ln n / n) (UCB1), Beta(1+s, 1+f) checked by a 6-sigma
-moment test over repeated identical queries (Thompson); an arm without observations keeps 0."""
+moment test over repeated identical queries (Thompson); an arm without observations keeps 0.
+
+As built: Extras: refits, MiniBatchKMeans with more clusters than the rows can fill (cells without rows: reference = policy trained on the empty set), tree queries a hair (1e-9, 1e-12 relative) off the midpoints between stored values, randomised cluster policies checked with the row's own seed.
+"""
 from mon import env  # noqa: F401
 import math
 
